@@ -142,19 +142,19 @@ def case_derivation(inp):
         nodes = []   # (label, reader, eager value)
 
         def check(when):
-            for label, rd, E in nodes:
+            for label, rd, E, pr in nodes:
                 for rows in rows_list:
                     out = read(rd, rows, None)
                     exp = expect(E, rows, None)
-                    if not (agree(out, exp, [['pow', 0]]) and out.dtype == exp.dtype):
+                    if not (agree(out, exp, pr) and out.dtype == exp.dtype):
                         return False, '%s changed/wrong %s, rows %s: %s vs %s' % (label, when, rows, out.tolist(), exp.tolist())
             return True, ''
 
-        nodes.append(('root', root, b.A))
+        nodes.append(('root', root, b.A, []))
         parent, ok = apply_prog(root, inp['base'], check_reader=True)
         Ep = apply_prog(b.A, inp['base'])   # bases are chosen so that the eager parent exists
         if inp['base']:
-            nodes.append(('parent', parent, Ep))
+            nodes.append(('parent', parent, Ep, inp['base']))
         yield 'parent-reads-as-eager', *check('before deriving')
         kids = []
         for i, prog in enumerate(inp['children']):
@@ -163,17 +163,17 @@ def case_derivation(inp):
             yield 'deriving-child-does-not-change-parent-or-siblings', *check('after deriving child %d' % i)
             Ec, exc = eager(Ep, prog)
             if exc is None:
-                nodes.append(('child%d' % i, c, Ec))
-            kids.append((c, Ec))
+                nodes.append(('child%d' % i, c, Ec, inp['base'] + prog))
+            kids.append((c, Ec, inp['base'] + prog))
             yield 'reading-child-does-not-change-parent-or-siblings', *check('after reading child %d' % i)
         for j, (ci, prog) in enumerate(inp.get('grand', [])):
-            c, Ec = kids[ci]
+            c, Ec, pc = kids[ci]
             g, isr = apply_prog(c, prog, check_reader=True)
             yield 'expression-is-again-a-reader', isr, type(g).__name__
             yield 'deriving-grandchild-does-not-change-ancestors-or-siblings', *check('after deriving grandchild %d' % j)
             Eg, exc = eager(Ec, prog) if Ec is not None else (None, ValueError)
             if exc is None:
-                nodes.append(('grand%d' % j, g, Eg))
+                nodes.append(('grand%d' % j, g, Eg, pc + prog))
             yield 'reading-grandchild-does-not-change-ancestors-or-siblings', *check('after reading grandchild %d' % j)
 
 
@@ -310,6 +310,14 @@ def enumerate_cases(ctx):
     for dt in dts2:
         lay = lay_flat(dt)
         for p in programs_full(1, w, SC_PY[:2] + SC_PY[2:3] if quick else SC_PY):
+            for r in rows_all:
+                ctx.run('program', {'layout': lay, 'prog': p, 'rows': r, 'cols': None})
+
+    if not quick:
+        ctx.scope('thorough: every depth-2 program over the full alphabet with scalars {2,-3,0.5} x EVERY row index form of C01 on the '
+                  '3-file flat int16 layout')
+        lay = lay_flat('int16')
+        for p in programs_full(2, w, SC_PY[:3]):
             for r in rows_all:
                 ctx.run('program', {'layout': lay, 'prog': p, 'rows': r, 'cols': None})
 
